@@ -23,7 +23,7 @@ RULE = (
     "instance; non-trivial = tree with >= 3 nodes; distinct = distinct tree fingerprints"
 )
 ASSUMPTIONS = ["all nodes of a tree are registered (handles are held) and no object occurs twice, as the statement requires"]
-MUST_SEE = ["deep_3000_queries", "virtual_subclass_queries", "remodelled_class_tree", "interleaved_ancestor_chains", "relative_depth_unchecked", "absolute_after_relative", "both_foreign_keyerrors", "twin_pairs_in_tree", "foreign_twins", "non_ancestor_pairs", "index_ge_10", "root_relative_valueerror", "keyerrors", "subtree_trees", "exact_tuple_hits"]
+MUST_SEE = ["derived_child_field_queries", "deep_3000_queries", "virtual_subclass_queries", "remodelled_class_tree", "interleaved_ancestor_chains", "relative_depth_unchecked", "absolute_after_relative", "both_foreign_keyerrors", "twin_pairs_in_tree", "foreign_twins", "non_ancestor_pairs", "index_ge_10", "root_relative_valueerror", "keyerrors", "subtree_trees", "exact_tuple_hits"]
 CONFIG = {
     "quick": {"shards": 16, "trees": 400, "max_nodes": 28, "watchdog_s": 300},
     "thorough": {"shards": 32, "trees": 600, "max_nodes": 45, "watchdog_s": 3000},
@@ -411,6 +411,41 @@ def deep_leg(ctx, U, Tree):
     n.detach()
 
 
+def derived_child_leg(ctx, U, Tree):
+    """child fields the class fills in itself (init=False, with and without compare=False): their nodes are in the tree"""
+    P = U.P
+    name = f"{P}Implied6"
+    if name not in U.module.__dict__:
+        src = (
+            f"@dataclass(frozen=True)\nclass {name}({P}Expr):\n    v: int = 0\n    kid: {P}Expr | None = None\n"
+            f"    implied: {P}Expr | None = field(default=None, init=False, compare=False)\n    shadow: {P}Expr | None = field(default=None, init=False)\n"
+            f"    aside: {P}Expr | None = field(default=None, compare=False)\n\n"
+            f"    def __post_init__(self):\n        object.__setattr__(self, 'implied', {P}Un(child={P}Leaf(v=self.v, s='implied')))\n"
+            f"        object.__setattr__(self, 'shadow', {P}Leaf(v=self.v, s='shadow'))\n        super().__post_init__()\n"
+        )
+        exec(compile(src, "<c06 implied>", "exec", dont_inherit=True), U.module.__dict__)
+    C = U.module.__dict__[name]
+    inner = C(v=2, kid=U.cls[f"{P}Leaf"](v=20), aside=U.cls[f"{P}Leaf"](v=21))
+    root = U.cls[f"{P}List"](items=(C(v=1, kid=inner), U.cls[f"{P}Leaf"](v=3)))
+    t = Tree(root)
+    outer = root.items[0]
+    for node, parent, fname, depth in (
+        (outer.implied, outer, "implied", 2), (outer.implied.child, outer.implied, "child", 3), (outer.shadow, outer, "shadow", 2),
+        (inner, outer, "kid", 2), (inner.implied, inner, "implied", 3), (inner.implied.child, inner.implied, "child", 4), (inner.shadow, inner, "shadow", 3), (inner.aside, inner, "aside", 3),
+    ):
+        ctx.evaluations += 1
+        ctx.count("derived_child_field_queries")
+        try:
+            pi = t.get_parent_info(node)
+            got = (t.is_in_tree(node), t.get_parent(node) is parent, pi is not None and pi.field.name == fname, t.get_depth(node), t.is_ancestor(node, root), [id(a) for a in t.get_ancestors(node)][:1] == [id(parent)])
+        except Exception as e:  # noqa: BLE001
+            got = f"{type(e).__name__}: {e}"[:120]
+        if got != (True, True, True, depth, True, True):
+            ctx.violation("derived-child", f"queries about the node in the self-filled child field '{fname}' gave {got!r}", {"field": fname, "expected": (True, True, True, depth, True, True)})
+    del t
+    root.detach()
+
+
 def virtual_subclass_leg(ctx, U, Tree):
     """'instance' means isinstance: a class registered as a virtual subclass of an abstract node base counts"""
     from abc import ABC
@@ -441,5 +476,6 @@ def run_shard(ctx):  # noqa: F811 - the main loop, then the legs that need a his
 
         remodel_leg(ctx, core_universe(), Tree)
         virtual_subclass_leg(ctx, core_universe(), Tree)
+        derived_child_leg(ctx, core_universe(), Tree)
         if ctx.shard % 4 == 0:
             deep_leg(ctx, core_universe(), Tree)
